@@ -142,9 +142,15 @@ func (m *RWMutex) Lock() {
 		m.writer = true
 		return
 	}
-	m.waitingWriters++
-	vsched.Point("Lock", m, func() bool { return !m.writer && m.readers == 0 })
-	m.waitingWriters--
+	// Two steps, as in the real thing: arriving at the call is a scheduling point at which nothing is announced yet (a
+	// thread can be preempted right before it calls Lock); only a call which finds the lock taken announces a waiting
+	// writer - from then on new readers block - and waits.
+	vsched.Point("Lock", m, nil)
+	if m.writer || m.readers > 0 {
+		m.waitingWriters++
+		vsched.Point("Lock.wait", m, func() bool { return !m.writer && m.readers == 0 })
+		m.waitingWriters--
+	}
 	m.writer = true
 	m.holder = vsched.CurrentThread()
 	m.wsv.Acquire()
